@@ -106,7 +106,16 @@ structure DB where
   recycle : Option Nat           -- pool_recycle (in clock ticks); none = -1
   engineOpts : List Bool         -- engine-level execution_options registrations, in order:
                                  -- true = isolation_level="AUTOCOMMIT", false = logging_token
+  skipAc : Bool := false         -- create_engine(skip_autocommit_rollback=True)
 deriving DecidableEq, Repr, Inhabited
+
+/-- `DefaultDialect.do_rollback`: `if self.skip_autocommit_rollback and
+    self.detect_autocommit_setting(dbapi_connection): return` — decided on the state of the
+    DBAPI connection itself, not on any option recorded on the Connection object -/
+def DB.skipsRollback (db : DB) : Bool := db.skipAc && db.raw.autocommit
+
+/-- the static engine configuration that decides how connections are reset -/
+def DB.cfg (db : DB) : ResetStyle × Bool := (db.reset, db.skipAc)
 
 def Data.insert (d : Data) (k : Nat) : Option Data :=
   if d.contains k then none else some (d ++ [k])
@@ -239,7 +248,7 @@ def DB.checkin (db : DB) (transactionWasReset : Bool) : DB :=
   let (db, bad) : DB × Bool :=
     match db.reset with
     | .rollback =>
-      if transactionWasReset then (db, false)
+      if transactionWasReset || db.skipsRollback then (db, false)
       else
         match db.takeFault .rollback with
         | (some _, db) => (db.kill, true)
@@ -263,7 +272,7 @@ def DB.checkin (db : DB) (transactionWasReset : Bool) : DB :=
 /-- the reset-on-return of `checkin` is interrupted by a BaseException -/
 def DB.resetInterrupted (db : DB) (transactionWasReset : Bool) : Bool :=
   match db.reset with
-  | .rollback => !transactionWasReset && (db.takeFault .rollback).1 == some .kbi
+  | .rollback => !transactionWasReset && !db.skipsRollback && (db.takeFault .rollback).1 == some .kbi
   | .commit => (db.takeFault .commit).1 == some .kbi
   | .none => false
 
@@ -293,9 +302,10 @@ structure Conn where
 deriving DecidableEq, Repr, Inhabited
 
 def DB.init (reset : ResetStyle) (listener : Listener := .none) (engineOpts : List Bool := [])
-    (recycle : Option Nat := none) : DB :=
+    (recycle : Option Nat := none) (skipAc : Bool := false) : DB :=
   { committed := [], raw := default, idle := [], clock := 0, invalTime := 0, nextRid := 0,
-    faults := [], reset := reset, listener := listener, recycle := recycle, engineOpts := engineOpts }
+    faults := [], reset := reset, listener := listener, recycle := recycle, engineOpts := engineOpts,
+    skipAc := skipAc }
 
 /-- one `_set_connection_characteristics` call on the held DBAPI connection: `iso` = it sets
     isolation_level "AUTOCOMMIT" (the fake driver commits what is pending when autocommit is
@@ -433,18 +443,6 @@ def DB.apply (db : DB) : Sql → Option DB × Res
     | some r => (some { db with raw := r }, .ok)
     | none => (none, .operational)
 
-/-- `_handle_dbapi_exception` for a dbapi.Error whose (possibly listener-adjusted)
-    classification is "not a disconnect": nothing happens to the transaction state
-    ("autorollback" `_rollback_impl()` only when not in a transaction, which autobegin makes
-    unreachable from `execute`). -/
-def Conn.plainError (c : Conn) : Conn × Res :=
-  if c.inTransaction then (c, .operational)
-  else if c.hasDbapi then
-    match c.db.takeFault .rollback with
-    | (some _, db) => ({ c with db := db }, .operational)   -- reentrant error: raised as is
-    | (none, db) => ({ c with db := db.rollback }, .operational)
-  else (c, .operational)
-
 /-- `_handle_dbapi_exception` for a dbapi.Error:
     `is_disconnect` = the dialect's classification, overridden by a `handle_error` listener;
     disconnect → (unless the listener cleared `invalidate_pool_on_disconnect`) invalidate the
@@ -459,6 +457,26 @@ def Conn.discError (c : Conn) : Conn × Res :=
     wrapped, re-raised as is -/
 def Conn.kbiError (c : Conn) : Conn × Res :=
   (if c.invalidated then c else { c with hasDbapi := false, db := c.db.kill }, .interrupted)
+
+/-- `_handle_dbapi_exception` for a dbapi.Error whose (possibly listener-adjusted)
+    classification is "not a disconnect": nothing happens to the transaction state, but
+    outside a transaction (a statement that failed before autobegin: cursor creation) the
+    handler emits its "autorollback" `_rollback_impl()`.  When that rollback fails, the
+    nested (re-entrant) `_handle_dbapi_exception` call classifies the new error with the
+    dialect (no listeners), leaves the verdict in `self._is_disconnect` and re-raises; the
+    outer call's `finally:` then invalidates the Connection — and the pool, as decided for
+    the OUTER error (`invalidate_pool_on_disconnect`, which a listener may have cleared). -/
+def Conn.plainError (c : Conn) : Conn × Res :=
+  if c.inTransaction then (c, .operational)
+  else if c.hasDbapi then
+    if c.db.skipsRollback then (c, .operational)
+    else
+      match c.db.takeFault .rollback with
+      | (some .err, db) => ({ c with db := db }, .operational)   -- raised as is
+      | (some .disc, db) => (({ c with db := db } : Conn).discError.1, .operational)
+      | (some .kbi, db) => (({ c with db := db } : Conn).discError.1, .interrupted)
+      | (none, db) => ({ c with db := db.rollback }, .operational)
+  else (c, .operational)
 
 def Conn.dbapiError (c : Conn) (k : FKind) : Conn × Res :=
   if k == .kbi then c.kbiError
@@ -536,7 +554,10 @@ def Conn.rootDeactivate (c : Conn) (h : Nat) : Conn :=
 
 /-- `Connection._rollback_impl` -/
 def Conn.rollbackImpl (c : Conn) : Conn × Res :=
-  if c.hasDbapi then c.dbapiCall .rollback DB.rollback else (c, .ok)
+  if c.hasDbapi then
+    if c.db.skipsRollback then (c, .ok)       -- dialect.do_rollback returns without a DBAPI call
+    else c.dbapiCall .rollback DB.rollback
+  else (c, .ok)
 
 /-- the `finally:` of `RootTransaction._close_impl` -/
 def Conn.rootCloseFinally (c : Conn) (h : Nat) (tryDeactivate : Bool) : Conn :=
